@@ -738,7 +738,15 @@ func (ev *Evaluator) evalObject(pairs [][2]jast.Node, data Value, env *Env) (Val
 			}
 			ctx = sub
 		}
-		v, err := ev.eval(pairs[ix.pair][1], ctx, env)
+		// a single item is the context itself; with nothing to group, no value
+		var cv Value = ctx
+		if len(ctx) == 1 {
+			cv = ctx[0]
+			if IsUndef(data) {
+				cv = Undef
+			}
+		}
+		v, err := ev.eval(pairs[ix.pair][1], cv, env)
 		if err != nil {
 			if err.Class == "unsupported" {
 				return Undef, err
